@@ -114,7 +114,10 @@ Print Assumptions C05_ap_normal_form.
 
 (** NO PANIC, direct statement.  For every configuration (throttled with R in 1..=255, or the
     unthrottled term_like target), and EVERY call history - no hypothesis on the instants at all,
-    they may even decrease - the run is a list of [Ok] outcomes, one per call: no call panics
+    they may even decrease (beyond the property's quantifier; the early exits `now < prev` /
+    `now < start` that make this true are evaluated against the code by the `step-back` stream
+    of c05.rs, which sets the mock clock backwards) - the run is a list of [Ok] outcomes, one
+    per call: no call panics
     (the model has the four panic sites of the two `allow` functions as explicit outcomes,
     model/Limiter.v).  Stronger than the reachable-state statements C05_rl_normal_form /
     C05_ap_normal_form in one respect: the `- 1` and the two subtractions cannot underflow in ANY
@@ -169,8 +172,13 @@ Theorem C05_sys_liveness : forall (multi : bool) (R t0 : N) (bars : list (N * N)
 Proof. exact sys_liveness. Qed.
 Print Assumptions C05_sys_liveness.
 
-(** FRAME AGE (staleness, first half), both configurations, any number of members.  The target
-    and all bars exist at [lo]; calls on existing bars ([ops_valid]) at non-decreasing instants
+(** FRAME AGE (staleness, first half), both configurations, any number of members.  START STATE:
+    [sys_new] - the target's limiter is fresh (created at [t0]) AND every bar is fresh (created
+    at its [tb] with a new position limiter) and has received NO call before [lo]; target and bars
+    may have been created in any order ([t0 <= lo], every [tb <= lo]).  A bar that was already
+    driven before the target existed (hidden target, then set_draw_target) is NOT an instance:
+    that is C05_frame_age_late_target_partial below, with a weaker conclusion.
+    Calls on existing bars ([ops_valid]) at non-decreasing instants
     from [lo] on, any mix of the eight operations on any members: at the instant of EVERY call
     (the last one of [ops]; every prefix is again such a history) a frame has been painted - by
     whichever member's call - and the most recent one is younger than one refresh interval plus
@@ -191,6 +199,41 @@ Theorem C05_frame_age_partial : forall (multi : bool) (R t0 lo : N) (bars : list
 Proof. exact sys_frame_age. Qed.
 Print Assumptions C05_frame_age_partial.
 
+(** FRAME AGE AFTER A LATE ATTACH (ProgressBar::set_draw_target, model/Limiter.v [late_run]).  A
+    stand-alone bar is created at [tb] on a hidden target and receives the calls [pre] - which
+    paint nothing but do consume the bar's OWN position limiter -; at [t0] a target with refresh
+    rate R is attached (fresh limiter); then the calls [ops].  At the instant of every call that
+    comes at least 1 ms after the attach (the last one of [ops]; every prefix ending that late is
+    again such a history) a frame has been painted SINCE the attach, and the most recent one is
+    younger than one refresh interval plus 1 ms.  _partial: frame age only, stand-alone bar, and
+    nothing is claimed for the first millisecond after the attach - rightly so, next theorem. *)
+Theorem C05_frame_age_late_target_partial : forall (R t0 tb len0 : N) (pre ops : list (N * N * bop)),
+  1 <= R <= 255 -> tb <= t0 ->
+  nondec tb (map op_time pre) -> (forall t, In t (map op_time pre) -> t <= t0) ->
+  ops_valid 1 pre -> ops_valid 1 ops -> ops <> [] -> nondec t0 (map op_time ops) ->
+  (forall t, In t (map op_time (pre ++ ops)) -> t < tb + U64) ->
+  t0 + 1000000 <= last (map op_time ops) 0 ->
+  exists f, last_paint None (map op_time (pre ++ ops))
+              (late_run (false, Some R, t0, [(tb, len0)]) pre ops) = Some f
+            /\ t0 <= f /\ f <= last (map op_time ops) 0
+            /\ last (map op_time ops) 0 < f + rl_interval_of R + 1000000.
+Proof. exact late_frame_age. Qed.
+Print Assumptions C05_frame_age_late_target_partial.
+
+(** the first millisecond IS different: ten inc at 0.4 ms on the hidden target drain the bar's
+    position limiter; a 1 Hz target is attached at 0.5 ms; the inc at 0.5 ms and at 0.9 ms are both
+    swallowed by the bar's own limiter (next token at 1 ms): no frame, although the new target's
+    bucket is full.  Not a defect - within 1 ms the next update reaches -, but it is why
+    C05_frame_age_partial (fresh bars) does not cover set_draw_target.  (docs/AUDIT3.md, 25.) *)
+Theorem C05_frame_age_late_target_refuted :
+  exists pre ops,
+    nondec 0 (map op_time pre) /\ (forall t, In t (map op_time pre) -> t <= 500000) /\
+    ops_valid 1 pre /\ ops_valid 1 ops /\ ops <> [] /\ nondec 500000 (map op_time ops) /\
+    last_paint None (map op_time (pre ++ ops))
+      (late_run (false, Some 1, 500000, [(0, 100)]) pre ops) = None.
+Proof. exact late_frame_age_refuted. Qed.
+Print Assumptions C05_frame_age_late_target_refuted.
+
 (** ------------------------------------------------------------------------------------------
     THE STAND-ALONE BAR. *)
 
@@ -202,8 +245,10 @@ Print Assumptions C05_frame_age_partial.
     (next theorem), a continuously updated stand-alone bar is never more than I + 1 ms stale.
     _partial: stand-alone bar only (MultiProgress: C05_frame_age_partial above + the MultiProgress
     theorems at the end), and [t0 <= tb]: the draw target is at least as old as the bar, which
-    is what ProgressBar::with_draw_target(len, target) gives; a target attached later with
-    set_draw_target is covered by C05_frame_age_partial ([lo] = the later of the two). *)
+    is what ProgressBar::with_draw_target(len, target) gives.  A bar created BEFORE its target
+    and not called until the target exists is the instance [multi = false] of
+    C05_frame_age_partial ([lo] = the later of the two instants); a bar that was called before
+    the target was attached (set_draw_target) is C05_frame_age_late_target_partial. *)
 Theorem C05_staleness_partial : forall (R t0 tb len0 : N) (ops : list (N * bop)),
   1 <= R <= 255 -> t0 <= tb -> ops <> [] ->
   nondec tb (map fst ops) -> (forall t, In t (map fst ops) -> t < tb + U64) ->
@@ -339,6 +384,22 @@ Example C05_nonvacuous_sys :
   nth_error outs 23 = Some (Ok (true, Some [(10, 100, 0); (0, 100, 0)])) /\
   last_paint None (map op_time c5_multi_ops) outs = Some 1000000006.
 Proof. vm_compute. repeat split; try discriminate; repeat constructor. Qed.
+
+(* the late-attach scenario continued past the first millisecond: the inc at 1.5 ms reaches (the
+   position limiter's token matured at 1 ms) and is painted by the fresh target; and [late_run]
+   with no calls before the attach is [sys_run] on [sys_new] *)
+Example C05_nonvacuous_late_target :
+  let pre := map (fun _ => (400000, 0, OInc 1)) (seq 0 10) in
+  let ops := [(500000, 0, OInc 1); (900000, 0, OInc 1); (1500000, 0, OInc 1)] in
+  let cfg := (false, Some 1, 500000, [(0, 100)]) in
+  nondec 0 (map op_time pre) /\ nondec 500000 (map op_time ops) /\
+  500000 + 1000000 <= last (map op_time ops) 0 /\
+  late_run cfg pre ops
+  = map (fun _ => Ok (true, None)) (seq 0 10)
+    ++ [Ok (false, None); Ok (false, None); Ok (true, Some [(13, 100, 0)])] /\
+  last_paint None (map op_time (pre ++ ops)) (late_run cfg pre ops) = Some 1500000 /\
+  late_run cfg [] ops = sys_run (sys_new cfg) ops.
+Proof. vm_compute. repeat split; discriminate. Qed.
 
 Example C05_nonvacuous_agree :
   0 < Limiter.rl_interval (Limiter.rl_new 255 7) <= U64 /\
